@@ -30,6 +30,9 @@ CHECKS = {
  "C08": ("6/C08", "TLA+ requirement CborWire.StreamDecode; TLC model check (MC_Wire) + TLC trace validation of recorded cbor_stream_decode calls (Trace_Wire)",
          "TLC checks the wire requirement for internal consistency on 27k (head, window) states (two independent transcriptions of the RFC table agree; a legal `required` always exists; FINISHED depends only on the bytes read). Every recorded call of the real cbor_stream_decode (all 256 initial bytes x argument classes x window lengths, exact-size ASan buffers) is then validated line by line by TLC against that requirement.",
          "Trusted: TLC, the ndjson recorder in harness/h_wire.c (logs raw inputs and outputs only), ASan/UBSan for out-of-window reads. Bounded input space: see evidence rule."),
+ "C09": ("6/C09", "TLA+ StreamClient (incremental client over CborWire), TLC exhaustive over all fragmentations incl. liveness (MC_Stream); TLC trace validation of recorded client runs around the real decoder (Trace_Stream)",
+         "TLC explores every stream of up to 3 heads (13-head alphabet, plus truncations) under every possible cutting into fragments and both extreme legal `required` answers: delivered events are always a prefix of the one-shot tokenisation, every wait is satisfiable, and with fairness a stream ending on an item boundary is delivered completely. Recorded runs of the documented client around the real cbor_stream_decode (single cuts at every offset, byte-at-a-time, random cuts; exactly-sized windows) are replayed through the same actions, each delivered event being compared with the tokenisation computed by TLC from the whole stream.",
+         "Trusted: TLC, recorder. The per-call function is tied to CborWire by C08."),
  "C10": ("6/C10", "TLA+ CborEncode.EncoderBytes (one operator per public encoder) vs CborWire by TLC (MC_EncDec); TLC trace validation of every recorded encode+decode pair (Trace_EncDec)",
          "TLC checks on the bounded domain that the demanded encoder output is the shortest/fixed-width big-endian RFC head and decodes back to the same kind and value. Every real (encoder, value) pair - exhaustive for 8-bit domains, 16-bit exhaustive in thorough, 2^k-1/2^k/2^k+1 and width boundaries for 32/64-bit, all halves - is judged by TLC: bytes identical to the requirement, decoder fires the matching callback with the identical value and reads exactly those bytes.",
          "Trusted: TLC, recorder."),
